@@ -65,7 +65,8 @@ struct VFd {
   TcpState tstate = TS_CREATED;
   int so_error = 0;           // pending error to report on next I/O (ECONNREFUSED, ECONNRESET...)
   std::string instream;       // bytes readable now
-  std::deque<int> instream_resp;  // not used for attribution (TCP is attributed by content markers)
+  uint64_t in_added = 0, in_read = 0;
+  std::deque<std::pair<uint64_t, int>> in_marks;   // (cumulative end offset, resp id) of frames appended to instream
   bool peer_closed = false;   // orderly close after instream drained
   bool tfo = false;           // TCP_FASTOPEN_CONNECT accepted
   int server_idx = -1;
@@ -153,6 +154,11 @@ struct Resp {
   uint32_t min_ttl = 0;
   bool delivered_to_socket = false;
   int64_t delivered_at = -1;
+  std::vector<int64_t> read_times;   // instants at which the library read this response from a socket
+  std::vector<uint32_t> read_seqs;   // call-log sequence numbers of those reads
+  bool tainted = false;              // corrupted in flight by a network fault: content no longer attributable
+  int acceptable = -1;               // evaluated at arrival: 1 = satisfies every acceptance condition, 0 = does not, -1 = not evaluated
+  std::string unacceptable_why;
 };
 
 enum Defect {
@@ -242,6 +248,7 @@ struct World {
   // hooks for oracles (set by the run)
   std::function<void(Tx &)> on_tx;
   std::function<void(Resp &)> on_resp_built;
+  std::function<void(Resp &, VFd &)> on_arrival;   // a response reached a client socket (acceptability is judged here)
   std::function<int(const Tx &)> beh_override;   // return -1 for default
   // stats
   std::map<std::string, int64_t> stat;
